@@ -147,6 +147,34 @@ def runMany (j : Json) : Except String Json := do
   let outs ← progs.mapM (runOne g0)
   pure (Json.arr outs.toArray)
 
+def parseHOp (j : Json) : Except String HOp := do
+  match ← getList j with
+  | [Json.str "opn", us] => pure (.opn (← parseUnits us))
+  | [Json.str "cls", i] => pure (.cls (← i.getNat?))
+  | [Json.str "use", Json.str s] => pure (.use s)
+  | _ => throw s!"bad history op {j}"
+
+def hevJson (g0 : Globals) : HEv → Json
+  | .opened ok g => Json.arr #[jstr "opened", Json.bool ok, gsum g0 g]
+  | .closed ok g => Json.arr #[jstr "closed", Json.bool ok, gsum g0 g]
+  | .used s ok => Json.arr #[jstr "used", jstr s, Json.bool ok]
+  | .noop => jstr "noop"
+
+def histOne (g0 : Globals) (j : Json) : Except String Json := do
+  let ops ← (← getList j).mapM parseHOp
+  let (st, evs) := hrun ops ⟨g0, []⟩
+  pure (Json.mkObj [
+    ("open", jnat st.opens.length),
+    ("restored", Json.bool (decide (st.g = g0))),
+    ("final", gsum g0 st.g),
+    ("events", jarr (hevJson g0) evs)])
+
+def histMany (j : Json) : Except String Json := do
+  let g0 ← parseG (← field j "G")
+  let hs ← getList (← field j "hists")
+  let outs ← hs.mapM (histOne g0)
+  pure (Json.arr outs.toArray)
+
 /-- `check_unique_symbols()` on a given table. -/
 def unique (j : Json) : Except String Json := do
   let g0 ← parseG (← field j "G")
@@ -156,6 +184,7 @@ def handle (j : Json) : Except String Json := do
   let k ← (← field j "k").getStr?
   match k with
   | "run" => runMany j
+  | "hist" => histMany j
   | "unique" => unique j
   | _ => throw s!"C09: unknown kind {k}"
 
